@@ -824,7 +824,11 @@ fn invalid(c: &mut Case) {
     let p = c.rng.us(1, 5);
     let n = c.rng.us(p + 2, 25);
     let x = design(&mut c.rng, n, p, 30.0, 0.1, 100.0, 1.0);
-    let y: Vec<f64> = (0..n).map(|_| 3.0 * c.rng.normal() + 2.0).collect();
+    // the target is ordinary, constant or zero: an invalid setting is invalid whatever the data look like
+    let ykind = *c.rng.pick(&["random", "random", "random", "constant", "zero"]);
+    let yconst = c.rng.int(-9, 9) as f64 * 0.5 + 0.25;
+    let y: Vec<f64> = (0..n).map(|_| match ykind { "constant" => yconst, "zero" => 0.0, _ => 3.0 * c.rng.normal() + 2.0 }).collect();
+    c.bucket(&format!("invalid:target={}", ykind));
     let mut cfg = Cfg { alpha: c.rng.logu(1e-3, 1.0), rho: 1.0, tol: *c.rng.pick(&[1e-3, 1e-4, 1e-6]), normalize: c.rng.bool(0.5) };
     let mut max_iter = 1000usize;
     let (mut xi, mut yi) = (x.clone(), y.clone());
@@ -891,6 +895,7 @@ fn invalid(c: &mut Case) {
         }
     };
     c.bucket(&format!("invalid:{}", sg));
+    let sg = if ykind == "random" { sg } else { format!("{}/{}-target", sg, ykind) };
     c.bucket(if cfg.normalize { "normalize:on" } else { "normalize:off" });
     c.describe(json!({"op": "lasso invalid setting", "kind": sg, "X": mat_json(&xi), "y": yi, "alpha": cfg.alpha.to_string(), "tol": cfg.tol.to_string(),
         "normalize": cfg.normalize, "max_iter": max_iter}));
@@ -917,7 +922,7 @@ fn api_paths_fam(c: &mut Case) {
 fn main() {
     runner::main(Spec {
         property: "C08",
-        rule: "per case a design X (1<=p<=6, p<n<=60, random orthogonal factors with graded singular values, column scales 0.1..100, column means 0 / 1 / 4 column scales) whose standardised version has measured cond <= 1e3 and no (nearly) constant column, a noisy sparse-linear target with mean 0 / moderate / 1e3..1e6 spreads, alpha from 1e-3 to 3 alpha_max, tol in {1e-3,1e-4,1e-5,1e-6}, normalisation on/off, l1_ratio in (0,1]; families: lasso, enet (near-optimality against a duality-gap certified reference, intercept mapping, predict on the training rows and three unseen rows), enet_rho1 (elastic net at l1_ratio=1 vs Lasso), lasso_shift / enet_shift (fit(y) vs fit(y+c), c in {1, 1e3, spread, 1e3 spread, 1e6 spread} with either sign), constant_target (y constant: termination, Ok, finite, objective 0), invalid (Lasso must return Err for alpha<0, tol<=0, max_iter=0, n<=p, len(y)!=n, constant column under normalisation). Every fit runs under a budget of 5e6 line-search steps (exceeding it is a termination violation). A case is non-trivial when the fit returned and the reference certificate was reached (invalid-setting and constant-target cases always are); distinct = hash of the materialised input",
+        rule: "per case a design X (1<=p<=6, p<n<=60, random orthogonal factors with graded singular values, column scales 0.1..100, column means 0 / 1 / 4 column scales) whose standardised version has measured cond <= 1e3 and no (nearly) constant column, a noisy sparse-linear target with mean 0 / moderate / 1e3..1e6 spreads, alpha from 1e-3 to 3 alpha_max, tol in {1e-3,1e-4,1e-5,1e-6}, normalisation on/off, l1_ratio in (0,1]; families: lasso, enet (near-optimality against a duality-gap certified reference, intercept mapping, predict on the training rows and three unseen rows), enet_rho1 (elastic net at l1_ratio=1 vs Lasso), lasso_shift / enet_shift (fit(y) vs fit(y+c), c in {1, 1e3, spread, 1e3 spread, 1e6 spread} with either sign), constant_target (y constant: termination, Ok, finite, objective 0), invalid (Lasso must return Err for alpha<0, tol<=0, max_iter=0, n<=p, len(y)!=n, constant column under normalisation; with an ordinary, a constant or a zero target). Every fit runs under a budget of 5e6 line-search steps (exceeding it is a termination violation). A case is non-trivial when the fit returned and the reference certificate was reached (invalid-setting and constant-target cases always are); distinct = hash of the materialised input",
         assumptions: vec![
             "f64 with the DenseMatrix backend only (tol down to 1e-6 is not meaningful in f32; backend equivalence is C20); max_iter = 1000 (library default) for all valid fits",
             "'moderately conditioned' is measured on the standardised design (cond <= 1e3, reference Jacobi SVD); in raw mode the column scales 0.1..100 and the column means add to the condition number of the matrix the optimiser sees (bucketed as cond(Z used))",
